@@ -20,7 +20,7 @@ KEYWORDS = {"module", "endmodule", "input", "output", "inout", "wire", "reg", "a
             "localparam", "primitive", "endprimitive", "function", "endfunction", "task", "endtask",
             "integer", "tri0", "tri1", "defparam", "tri", "supply0", "supply1", "begin", "end",
             "always", "initial", "if", "else", "case", "endcase", "for", "generate", "endgenerate"}
-CONST_NAME = {"0": "\\<const0>", "1": "\\<const1>"}
+CONST_NAME = {c: "\\<const" + c + ">" for c in "01xXzZ"}
 LETTERS = "abcdefghijklmnopqrstuvwxyzABCDEFGHIJKLMNOPQRSTUVWXYZ"
 ESC_CHARS = LETTERS + "0123456789_[]().<>~^$#=+-/!%&|:;,{}@?'\"*"
 
@@ -59,7 +59,10 @@ def gen_value(rng):
     if k == 1:
         return "%d'h%X" % (rng.choice([4, 8, 16]), rng.randint(0, 255))
     if k == 2:
-        return '"%s"' % rng.choice(["TRUE", "FALSE", "soft lut", "a,b", "x*y", "(p)"])
+        # string literals are stored verbatim: runs of blanks, tabs, comment openers and punctuation inside them
+        return '"%s"' % rng.choice(["TRUE", "FALSE", "soft lut", "a,b", "x*y", "(p)", "RAM  A", "x \t y", "a   b", " lead",
+                                    "trail  ", "core.v:12    core.v:40", "// no comment", "/* nor this */", "\t\ttabs", "[3:0] {a, b}",
+                                    "`tick", "1'b0", "a\\b", ""])
     if k == 3:
         return "%d'b%s" % (rng.choice([1, 2, 4]), rng.choice(["0", "1", "10", "0110"]))
     return rng.choice(["ABC", "on", "x_1"])
@@ -71,7 +74,8 @@ def gen_attrs(rng, p=0.25):
     out, used = [], set()
     for _ in range(rng.randint(1, 3)):
         k = fresh_name(rng, used, "at", p_esc=0.0)
-        v = None if rng.random() < 0.3 else rng.choice(['"yes"', "1", '"soft_lutpair0"', "val", '"a b"'])
+        v = None if rng.random() < 0.3 else rng.choice(['"yes"', "1", '"soft_lutpair0"', "val", '"a b"', '"a  b"', '"x \t y"',
+                                                        '"core.v:12    core.v:40"', '" lead and trail  "', "4'hF", '"// x"'])
         out.append([k, v])
     return out
 
@@ -117,6 +121,19 @@ def gen_design(rng, size="small", opts=None):
                 callees.append(rng.choice(pool))
         rng.shuffle(callees)
         _gen_body(rng, m, callees, o)
+    root = mods[0]
+    if rng.random() < o.get("p_hier_name", 0.1):
+        # a net of the root that carries the hierarchical name flatten() will give to a net of a child
+        for it in root["body"]:
+            if it["t"] == "inst" and not it["name"].startswith("\\"):
+                tgt = next((x for x in mods if x["name"] == it["mod"]), None)
+                inner = [n for n in (_nets_of(tgt) if tgt else {}) if not n.startswith("\\")]
+                if inner:
+                    nm = "\\" + it["name"] + "/" + rng.choice(inner)
+                    if nm not in _nets_full(root):
+                        root["wires"].append({"name": nm, "msb": 0, "lsb": 0, "ranged": False, "type": "wire", "attrs": []})
+                        root["decl_order"].append(["wire", len(root["wires"]) - 1])
+                    break
     for p in prims:
         p.pop("_used", None)
         if p["style"] == "header":
@@ -128,7 +145,7 @@ def gen_design(rng, size="small", opts=None):
     else:
         order = list(reversed(mods)) + prims if rng.random() < 0.5 else prims + list(reversed(mods))
     d = {"modules": order, "top": mods[0]["name"],
-         "timescale": "1 ps / 1 ps" if rng.random() < 0.3 else None}
+         "timescale": rng.choice(["1 ps / 1 ps", "1ns/1ps", "1 ps  /  1 ps", "10 ns /\t1 ns"]) if rng.random() < 0.3 else None}
     return d
 
 
@@ -152,7 +169,7 @@ def _gen_module_shell(rng, used_mod, kind, o, is_root):
         w = rng.randint(1, o["max_w"]) if ranged else 1
         p = {"name": fresh_name(rng, used, "p", o["p_esc"]), "dir": rng.choice(["input", "output", "inout"]),
              "w": w, "ranged": ranged, "alias": None,
-             "vtype": rng.choice([None, None, "wire", "reg"])}
+             "vtype": rng.choice([None, None, "wire", "reg"]), "attrs": []}
         if kind == "module" and m["style"] == "header" and rng.random() < o["p_alias"]:
             # alias port: .p({n1, n2, ...}) over scalar nets declared with a direction in the body
             k = rng.randint(1, 3)
@@ -200,7 +217,7 @@ def gen_atom(rng, nets, n, o, allow_const=True, implicit=None, used=None):
         elif w == 1 and n == 1 and rng.random() < 0.2:
             cands.append(["bit", name, lsb])
     if n == 1 and allow_const and rng.random() < o["p_const"]:
-        return ["const", rng.choice("01")]
+        return ["const", rng.choice("0011xzXZ")]
     if n == 1 and implicit is not None and rng.random() < o["p_implicit"]:
         nm = fresh_name(rng, used, "im", o["p_esc"])
         implicit.append(nm)
@@ -268,6 +285,10 @@ def _gen_body(rng, m, callees, o):
             decl = decl + pd
             rng.shuffle(decl)
     m["decl_order"] = decl
+    if m["style"] == "header":
+        for p in m["ports"]:
+            if p["alias"] is None:
+                p["attrs"] = gen_attrs(rng, o["p_attrs"] * 0.5)
     m["group_decls"] = rng.random() < 0.4
     nets = _nets_of(m)
     implicit = []
@@ -449,7 +470,8 @@ def _same_decl(m, a, b):
             and (x["name"] in m.get("asc", ())) == (y["name"] in m.get("asc", ()))
     if a[0] == "port":
         x, y = m["ports"][a[1]], m["ports"][b[1]]
-        return (x["dir"], x["vtype"], x["ranged"], x["w"], x.get("lsb", 0)) == (y["dir"], y["vtype"], y["ranged"], y["w"], y.get("lsb", 0)) \
+        return (x["dir"], x["vtype"], x["ranged"], x["w"], x.get("lsb", 0), x.get("attrs") or []) == \
+            (y["dir"], y["vtype"], y["ranged"], y["w"], y.get("lsb", 0), y.get("attrs") or []) \
             and (x["name"] in m.get("asc", ())) == (y["name"] in m.get("asc", ()))
     return m["ports"][a[1]]["dir"] == m["ports"][b[1]]["dir"]
 
@@ -515,6 +537,7 @@ def w_module(L, m):
             L.p(";")
         elif d[0] == "port":
             p = m["ports"][d[1]]
+            w_attrs(L, p.get("attrs") or [])
             L.kw(p["dir"])
             if p["vtype"]:
                 L.kw(p["vtype"])
@@ -654,7 +677,8 @@ def denote(design):
     for m in design["modules"]:
         nets = _nets_full(m)
         asc = set(m.get("asc", ()))
-        D = {"lib": "hdi_primitives" if m["kind"] == "prim" else "work", "primitive": False,
+        D = {"timescale": design.get("timescale"),
+             "lib": "hdi_primitives" if m["kind"] == "prim" else "work", "primitive": False,
              "ports": {}, "port_order": [p["name"] for p in m["ports"]], "cables": {}, "insts": {}, "assigns": [],
              "params": dict((k, v) for k, v in m["params"]), "attrs": dict((k, v) for k, v in m["attrs"]),
              "cable_attrs": {}, "cable_types": {}}
@@ -668,6 +692,8 @@ def denote(design):
                 pins = list(reversed(bits))
             D["ports"][p["name"]] = {"dir": DIRMAP[p["dir"]], "width": p["w"],
                                      "lower": p.get("lsb", 0) if p["alias"] is None else 0, "pins": pins}
+            if m["style"] == "header" and p["alias"] is None and "attrs" in p and m["kind"] != "prim":
+                D["ports"][p["name"]]["attrs"] = dict((k, v) for k, v in p["attrs"])
         for n, (lsb, w) in nets.items():
             D["cables"][n] = [lsb, w]
         for w in m["wires"]:
